@@ -170,6 +170,10 @@ func WetterK(VWDAT string, year int, g *GlobalVarsMain, s *WeatherDataShared, hP
 		s.REG[0][Tindex] = ValAsFloat(Wettin[9], VWDAT, WETTER)
 		s.MaxYearDays[0] = T
 	}
+	if Tlast == 0 {
+		// a year file without a single daily record: the arrays would keep the previous year's days
+		return fmt.Errorf("%s Failed to parse file: %s, error: missing days", g.LOGID, VWDAT)
+	}
 
 	s.replaceMissingValues(1, driConfig.WeatherNoneValue)
 	s.transformWeatherData(1, CORRK[:])
